@@ -77,6 +77,7 @@ inductive Op (κ α : Type)
   | setValue (obj : Nat) (flat : Nat) (v : α)
   | setCoord (obj : Nat) (dim : String) (k : Nat) (v : κ)
   | del (obj : Nat)
+  | proc (F : Data κ α → Except Err (Data κ α)) (obj out : Nat)   -- a processing function: new object
 
 namespace Op
 variable {κ α : Type}
@@ -91,7 +92,7 @@ def target : Op κ α → Nat
   | argCoord _ _ _ out => out | argIndex _ _ _ out => out | cumsum _ _ out => out
   | npReduce _ _ _ _ out => out | npUnary _ _ _ out => out | npBinary _ _ _ _ out => out
   | concat _ _ _ out => out | setAttr obj _ _ => obj | setDattr obj _ _ => obj | addHist obj _ _ => obj
-  | setValue obj _ _ => obj | setCoord obj _ _ _ => obj | del obj => obj
+  | setValue obj _ _ => obj | setCoord obj _ _ _ => obj | del obj => obj | proc _ _ out => out
 
 end Op
 
@@ -175,6 +176,7 @@ def step (sc : Scalars κ α) (s : Store κ α) : Op κ α → StepOut κ α
   | .setCoord obj dim k v => withObj s obj fun d =>
       { store := s.set obj { d with coords := setAt d.coords (d.index dim) (setAt (d.coord dim) k v) } }
   | .del obj => { store := s.del obj }
+  | .proc F obj out => withObj s obj fun d => putResult s out (F d)
 
 /-- a whole history -/
 def run (sc : Scalars κ α) (s : Store κ α) (ops : List (Op κ α)) : Store κ α :=
